@@ -70,3 +70,89 @@ theorem fromF32Chroma_le (ts v s o bd : Nat) (full : Bool) : fromF32Chroma ts v 
     · exact this
 
 end FrameP
+
+namespace FrameP
+open FrameM Mat32 ColorM
+
+theorem setU_cfg (p q : Plane) (pos v : Nat) (s : Site) (h : p.setU pos v s = .ok q) : q.cfg = p.cfg := by
+  unfold Plane.setU at h; split at h
+  · simp at h; subst h; rfl
+  · simp at h
+
+theorem encRow_cfg (inp : Array V3) (w ssx ssy : Nat) (fl fc : Nat → Nat) (yy : Nat) :
+    ∀ k st st', encRow inp w ssx ssy fl fc yy k st = .ok st' → st'.yP.cfg = st.yP.cfg ∧ st'.uP.cfg = st.uP.cfg ∧ st'.vP.cfg = st.vP.cfg := by
+  intro k
+  induction k with
+  | zero => intro st st' h; simp [encRow] at h; subst h; exact ⟨rfl, rfl, rfl⟩
+  | succ k ih =>
+    intro st st' h
+    unfold encRow at h
+    dsimp only at h
+    split at h
+    · split at h
+      · simp at h
+      · simp at h
+      · rename_i y1 hy1
+        have c1 := setU_cfg _ _ _ _ _ hy1
+        split at h
+        · split at h
+          · simp at h
+          · simp at h
+          · rename_i u1 hu1
+            have c2 := setU_cfg _ _ _ _ _ hu1
+            split at h
+            · simp at h
+            · simp at h
+            · rename_i v1 hv1
+              have c3 := setU_cfg _ _ _ _ _ hv1
+              have := ih _ _ h
+              exact ⟨this.1.trans c1, this.2.1.trans c2, this.2.2.trans c3⟩
+        · have := ih _ _ h
+          exact ⟨this.1.trans c1, this.2.1, this.2.2⟩
+    · simp at h
+
+theorem encRows_cfg (inp : Array V3) (w h ssx ssy : Nat) (fl fc : Nat → Nat) :
+    ∀ k st st', encRows inp w h ssx ssy fl fc k st = .ok st' → st'.yP.cfg = st.yP.cfg ∧ st'.uP.cfg = st.uP.cfg ∧ st'.vP.cfg = st.vP.cfg := by
+  intro k
+  induction k with
+  | zero => intro st st' hh; simp [encRows] at hh; subst hh; exact ⟨rfl, rfl, rfl⟩
+  | succ k ih =>
+    intro st st' hh
+    unfold encRows at hh
+    split at hh
+    · rename_i s1 h1
+      have a := encRow_cfg inp w ssx ssy fl fc _ _ _ _ h1
+      have b := ih _ _ hh
+      exact ⟨b.1.trans a.1, b.2.1.trans a.2.1, b.2.2.trans a.2.2⟩
+    · simp at hh
+    · simp at hh
+
+/-- whenever `ypbpr_to_ycbcr` returns, the luma plane has the requested dimensions and the chroma planes the subsampled ones -/
+theorem ypbpr_dims (inp : Array V3) (w h : Nat) (cfg : Cfg) (ts : Nat) (y : Yuv) (hy : ypbprToYcbcr inp w h cfg ts = .ok y) :
+    y.y.cfg.width = w ∧ y.y.cfg.height = h ∧ y.u.cfg.width = w >>> cfg.ssx ∧ y.u.cfg.height = h >>> cfg.ssy ∧
+    y.v.cfg.width = w >>> cfg.ssx ∧ y.v.cfg.height = h >>> cfg.ssy := by
+  unfold ypbprToYcbcr at hy
+  dsimp only at hy
+  split at hy
+  · simp at hy
+  · split at hy
+    · simp at hy
+    · simp at hy
+    · rename_i st hst
+      have hc := encRows_cfg _ _ _ _ _ _ _ _ _ _ hst
+      split at hy
+      · rename_i g hg
+        simp at hy; subst hy
+        have hv : g.y = st.yP ∧ g.u = st.uP ∧ g.v = st.vP := by
+          unfold Yuv.new at hg
+          dsimp only at hg
+          repeat' split at hg
+          all_goals (first | (simp at hg; done) | skip)
+          all_goals (simp at hg; subst hg; exact ⟨rfl, rfl, rfl⟩)
+        rw [hv.1, hv.2.1, hv.2.2, hc.1, hc.2.1, hc.2.2]
+        exact ⟨rfl, rfl, rfl, rfl, rfl, rfl⟩
+      · simp at hy
+      · simp at hy
+      · simp at hy
+
+end FrameP
